@@ -23,6 +23,9 @@ REWRITES = [
   ('ov_origin', 'BeartypeConf(hint_overrides=FrozenDict({list: tuple}))', [(r'\blist\b(?!\[)', 'tuple')]),
   # overriding a hint by itself rewrites nothing
   ('ov_self', 'BeartypeConf(hint_overrides=FrozenDict({L0: L0, list[str]: list[str]}))', []),
+  # an override whose replacement is a union WIDER than any union the key occurs in (every member of the replacement must reach the check)
+  ('ov_wide', 'BeartypeConf(hint_overrides=FrozenDict({L0: Union[L0, L1, int, bytes]}))', [(r'\bL0\b', 'Union[L0, L1, int, bytes]')]),
+  ('ov_wide_float', 'BeartypeConf(hint_overrides=FrozenDict({float: Union[float, str, bytes, L1, NT]}))', [(r'\bfloat\b', 'Union[float, str, bytes, L1, NT]')]),
   ('viol_type', 'BeartypeConf(violation_type=ValueError)', []),
   ('viol_door_warn', 'BeartypeConf(violation_door_type=UserWarning, violation_param_type=UserWarning)', []),
 ]
@@ -190,10 +193,39 @@ def sanify_tower(rep):
                 where='after sanification hint_overrides maps float -> float | int and complex -> complex | float | int and leaves every other override as passed')
     if not n: rep.error('C18.sanify_tower: no path')
 
+def zip_pairs_every_member(rep):
+    """the union code generator flattens nested unions (a replacement that is itself a union) through a work list filled by
+    `extend(zip(members, (parent,) * n))`: zip() silently truncates, so EVERY member of the replacement reaches the check only if n is the
+    length of that very sequence.  Structural obligation, decided by resolving n on the real AST (single-assignment names, len() calls)."""
+    import ast
+    from pyvc import REPO
+    rel = 'beartype/_check/code/_pep/pep484/codepep484604union.py'
+    tree = ast.parse(open(os.path.join(REPO, rel)).read()); n_sites = 0
+    for fn in [x for x in ast.walk(tree) if isinstance(x, ast.FunctionDef)]:
+        assigns = {}
+        for a in ast.walk(fn):
+            if isinstance(a, ast.Assign) and len(a.targets) == 1 and isinstance(a.targets[0], ast.Name): assigns.setdefault(a.targets[0].id, []).append(a.value)
+        def length_of(e):
+            """the expression whose len() e denotes, or None"""
+            if isinstance(e, ast.Call) and isinstance(e.func, ast.Name) and e.func.id == 'len' and len(e.args) == 1: return ast.dump(e.args[0])
+            if isinstance(e, ast.Name) and len(assigns.get(e.id, [])) == 1: return length_of(assigns[e.id][0])
+        for c in ast.walk(fn):
+            if not (isinstance(c, ast.Call) and isinstance(c.func, ast.Name) and c.func.id == 'zip' and len(c.args) == 2): continue
+            rep_arg = c.args[1]
+            if not (isinstance(rep_arg, ast.BinOp) and isinstance(rep_arg.op, ast.Mult)): continue
+            count = rep_arg.right if isinstance(rep_arg.left, ast.Tuple) else rep_arg.left
+            n_sites += 1
+            ok = length_of(count) == ast.dump(c.args[0]) and (not isinstance(c.args[0], ast.Name) or len(assigns.get(c.args[0].id, [])) <= 1)
+            rep.add(f'C18.flatten.zip_pairs_every_member.{fn.name}@{c.lineno}', 'proved' if ok else 'refuted', backend='structural',
+                    where=f'{rel}:{c.lineno} zip({ast.unparse(c.args[0])}, (...) * {ast.unparse(count)}): the repeat count ' + ('is' if ok else 'is NOT') + ' the length of the zipped sequence, so ' + ('no' if ok else 'a') + ' member of a nested union is dropped')
+    if not n_sites: rep.error('C18: no zip(members, (parent,) * n) site found in the union code generator (extraction key no longer resolves)')
+
 def main(tier, seed):
     rep = report.Report('C18', tier, seed, 'proof', f'./check C18 --tier {tier}')
     try: sanify_tower(rep)
     except Exception: rep.error('C18 sanify_tower: ' + traceback.format_exc()[-2000:])
+    try: zip_pairs_every_member(rep)
+    except Exception: rep.error('C18 zip_pairs_every_member: ' + traceback.format_exc()[-2000:])
     T = tasks(tier, seed)
     with mp.get_context('fork').Pool(int(os.environ.get('VERIF_PROCS', '16')), maxtasksperchild=30) as pool:
         recs = pool.map(_worker, T, chunksize=2)
